@@ -152,6 +152,34 @@ MEANINGFUL = [b"--- a/f\n", b"+++ b/f\n", b"--- /dev/null\n", b"+++ /dev/null\n"
               b"@@ -1,18446744073709551615 +1 @@\n", b"@@ -9223372036854775808 +1 @@\n", b"--- \"a/q\"\n", b"+++ \"b/q\\\n"]
 
 
+def gen_ctxfree_multi(rng):
+    """a file patch of 2-4 hunks without context lines (diff -U0) whose first hunk removes the first lines of the
+    file ('-1,N +0,0') or adds lines at the top ('-0,0 +1,N'): what a single such hunk means (deletion / creation
+    of the file) must not be read into a patch that has more hunks"""
+    name = rng.choice([b"f", b"dir/g.c", b"x y"])
+    out = b"--- " + rng.choice([b"a/", b""]) + name + b"\n+++ " + rng.choice([b"b/", b""]) + name + b"\n"
+    first = rng.choice(["del", "add", "del1"])
+    if first == "del":
+        n = rng.randint(1, 3)
+        out += b"@@ -1,%d +0,0 @@\n" % n + b"".join(b"-" + rng.choice([b"aaa", b"bbb", b"ccc"]) + b"\n" for _ in range(n))
+    elif first == "del1":
+        out += b"@@ -1 +0,0 @@\n-aaa\n"
+    else:
+        n = rng.randint(1, 3)
+        out += b"@@ -0,0 +1,%d @@\n" % n + b"".join(b"+" + rng.choice([b"aaa", b"bbb", b"ccc"]) + b"\n" for _ in range(n))
+    line = 5
+    for _ in range(rng.randint(1, 3)):
+        k = rng.choice(["chg", "add", "del"])
+        if k == "chg":
+            out += b"@@ -%d +%d @@\n-x\n+y\n" % (line, line)
+        elif k == "add":
+            out += b"@@ -%d,0 +%d @@\n+y\n" % (line, line + 1)
+        else:
+            out += b"@@ -%d +%d,0 @@\n-x\n" % (line, line - 1)
+        line += rng.randint(2, 6)
+    return out
+
+
 def gen_soup(rng, maxlines=7):
     n = rng.randint(0, maxlines)
     out = b"".join(rng.choice(MEANINGFUL) for _ in range(n))
